@@ -264,6 +264,12 @@ def explore(ctx):
                 ctx.nontriv(('blank', text, st))
                 if out == text or not is_subseq(out, text):
                     viol('bad-edit:blank', f'blank on {text!r} st={st}: {out!r}', rep)
+                else:
+                    # what is dropped are WHOLE lines ("\n" ends a line; a form feed or a vertical tab does not)
+                    tl_, ol_ = [x for x in re.split('(?<=\n)', text) if x], [x for x in re.split('(?<=\n)', out) if x]
+                    it_ = iter(tl_)
+                    if not all(any(x == y for y in it_) for x in ol_):
+                        viol('bad-edit:blank', f'blank on {text!r} st={st}: {out!r} is not the text minus whole lines', rep)
             tl = lambda ls: ('[' + '; '.join(ct(l) for l in ls) + ']') if ls else '(@nil text)'
             cs.add('run_blank', f'({ct(text)}, {tl(m0)}, {tl(m1)}, {st})', [{'OK': 0, 'STOP': 2}[res], st2] + enc_text(out))
         # ---------------- comments ----------------
